@@ -7,6 +7,7 @@ import (
 	"os/exec"
 	"path/filepath"
 	"strings"
+	"syscall"
 	"sync"
 	"testing"
 	"time"
@@ -363,7 +364,12 @@ func TestMain(m *testing.M) {
 }
 
 const childMemKiB = 4 << 20 // ulimit -v 4 GiB
-const childBudget = 120 * time.Second
+
+// The time budget is CPU time (ulimit -t: the kernel kills the child with SIGXCPU), which does not
+// depend on how busy the machine is; the slowest shape needs about 10 CPU-seconds. The wall-clock
+// bound only protects the run and is reported as an infrastructure problem, never as a violation.
+const childCPUSeconds = 240
+const childWallBudget = 20 * time.Minute
 
 func runChild(dir, name, input string) (ok bool, detail string) {
 	path := filepath.Join(dir, name+".sml")
@@ -375,7 +381,7 @@ func runChild(dir, name, input string) (ok bool, detail string) {
 	if err != nil {
 		return false, "INFRA: " + err.Error()
 	}
-	cmd := exec.Command("sh", "-c", fmt.Sprintf("ulimit -v %d; exec \"$0\" -test.run '^$'", childMemKiB), self)
+	cmd := exec.Command("sh", "-c", fmt.Sprintf("ulimit -v %d; ulimit -t %d; exec \"$0\" -test.run '^$'", childMemKiB, childCPUSeconds), self)
 	cmd.Env = append(os.Environ(), "VERIF_C14_CHILD="+path, "GOMAXPROCS=2")
 	done := make(chan struct{})
 	var out []byte
@@ -383,10 +389,13 @@ func runChild(dir, name, input string) (ok bool, detail string) {
 	go func() { out, runErr = cmd.CombinedOutput(); close(done) }()
 	select {
 	case <-done:
-	case <-time.After(childBudget):
+	case <-time.After(childWallBudget):
 		_ = cmd.Process.Kill()
 		<-done
-		return false, fmt.Sprintf("parsing did not finish within %v (input %d bytes)", childBudget, len(input))
+		return false, fmt.Sprintf("INFRA: the child did not finish within %v of wall-clock time without using up its CPU budget (input %d bytes)", childWallBudget, len(input))
+	}
+	if ws, ok := cmd.ProcessState.Sys().(syscall.WaitStatus); ok && ws.Signaled() && (ws.Signal() == syscall.SIGXCPU || ws.Signal() == syscall.SIGKILL) && cmd.ProcessState.UserTime()+cmd.ProcessState.SystemTime() >= (childCPUSeconds-5)*time.Second {
+		return false, fmt.Sprintf("parsing did not finish within %d s of CPU time (input %d bytes)", childCPUSeconds, len(input))
 	}
 	s := string(out)
 	if runErr == nil && strings.Contains(s, "CHILD-OK") {
@@ -403,7 +412,7 @@ func runChild(dir, name, input string) (ok bool, detail string) {
 
 func TestC14Resources(t *testing.T) {
 	defer ev.Flush()
-	ev.Rule("resource shapes (parametric families): list nesting 1e3..4e6 deep (open, closed, hinted), 2e4 header-only / small messages, a 1e5-digit numeric token, a 4 MiB quoted run, 1e5 unterminated quotes, 1 Mi backslashes, 4 MiB unterminated comment, 2e5 comments, 3e5 list children, 1e6 values, size hints 2^24..2^31-1 in every form on every item type, nested and repeated. Each input is parsed by every entry point in strict and non-strict mode in a CHILD PROCESS (this test binary re-executed) under ulimit -v 4 GiB, Go's default 1 GB stack cap and a 120 s budget; death by fatal error, signal or timeout is the violation. Non-trivial: every shape (all have size parameter >= 1000 or a hint >= 2^24); distinct by shape.")
+	ev.Rule("resource shapes (parametric families): list nesting 1e3..4e6 deep (open, closed, hinted), 2e4 header-only / small messages, a 1e5-digit numeric token, a 4 MiB quoted run, 1e5 unterminated quotes, 1 Mi backslashes, 4 MiB unterminated comment, 2e5 comments, 3e5 list children, 1e6 values, size hints 2^24..2^31-1 in every form on every item type, nested and repeated. Each input is parsed by every entry point in strict and non-strict mode in a CHILD PROCESS (this test binary re-executed) under ulimit -v 4 GiB, Go's default 1 GB stack cap and a budget of 240 s of CPU time (ulimit -t; wall-clock time is not an oracle); death by fatal error, signal or CPU-limit is the violation. Non-trivial: every shape (all have size parameter >= 1000 or a hint >= 2^24); distinct by shape.")
 	dir := os.Getenv("VERIF_SCRATCH")
 	if dir == "" {
 		dir = t.TempDir()
